@@ -65,6 +65,7 @@ pub trait Flavor: 'static {
 
     // shared
     fn s_clone(s: &Self::S) -> Self::S;
+    fn s_clone_from(s: &mut Self::S, src: &Self::S);
     fn s_get(s: &Self::S) -> Option<MOVal>;
     fn s_subscribe(s: &Self::S) -> Option<Self::Sub>;
     fn s_subscribe_reset(s: &Self::S) -> Self::Sub;
@@ -182,6 +183,9 @@ impl Flavor for SyncF {
     }
     fn s_clone(s: &Self::S) -> Self::S {
         s.clone()
+    }
+    fn s_clone_from(s: &mut Self::S, src: &Self::S) {
+        s.clone_from(src)
     }
     fn s_get(s: &Self::S) -> Option<MOVal> {
         Some(s.get().m())
@@ -362,6 +366,9 @@ impl Flavor for AsyncF {
     }
     fn s_clone(s: &Self::S) -> Self::S {
         s.clone()
+    }
+    fn s_clone_from(s: &mut Self::S, src: &Self::S) {
+        s.clone_from(src)
     }
     fn s_get(s: &Self::S) -> Option<MOVal> {
         now(s.get()).map(|v| v.m())
